@@ -24,6 +24,9 @@ pub enum SOp {
     /// merge the estimator with a clone of itself `times` times (doubles the count each time:
     /// the way sample sizes beyond 2^53 are reached)
     SelfMerge { times: u8 },
+    /// `n` pseudo-random observations in (-5, 5) (second component in (0.5, 1.5)) from a fixed generator:
+    /// a compact way to put the checkpoint late in a long history
+    Bulk { n: u32, seed: u32 },
 }
 
 #[derive(Clone, Debug, Serialize, Deserialize)]
@@ -37,6 +40,14 @@ pub struct S18 {
 fn apply<T: Est>(t: &mut T, op: &SOp) {
     match op {
         SOp::Add { x, y } => t.add2(*x, *y),
+        SOp::Bulk { n, seed } => {
+            let mut r = Sm(*seed as u64 + 1);
+            for _ in 0..*n {
+                let x = (r.f() - 0.5) * 10.0;
+                let y = 0.5 + r.f();
+                t.add2(x, y);
+            }
+        }
         SOp::SelfMerge { times } => {
             if T::HAS_MERGE {
                 for _ in 0..*times {
@@ -163,7 +174,7 @@ fn run18<T: Est>(c: &S18, o: &mut Obs) -> TestResult {
     let tail_adds = c.ops[cp..].iter().filter(|op| matches!(op, SOp::Add { .. })).count();
     o.nontrivial = cp > 0 && cp < c.ops.len() && tail_adds >= 1;
     if T::NAME.starts_with("Quantile") {
-        let n_before: usize = c.ops[..cp].iter().map(|op| match op { SOp::Add { .. } => 1, SOp::Merge { vals } => vals.len(), SOp::SelfMerge { .. } => 0 }).sum();
+        let n_before: usize = c.ops[..cp].iter().map(|op| match op { SOp::Add { .. } => 1, SOp::Merge { vals } => vals.len(), SOp::SelfMerge { .. } => 0, SOp::Bulk { n, .. } => *n as usize }).sum();
         if n_before < 5 {
             o.class("Quantile checkpoint before the fifth observation");
         } else {
@@ -224,7 +235,7 @@ pub fn sop_strategy(kind: Kind) -> impl Strategy<Value = SOp> {
 }
 
 pub fn run(cx: &Ctx) {
-    cx.set_rule("cases = (type, stream of adds and merges over the C01 domain, checkpoint position c in 0..=len) for Mean, Variance, Skewness, Kurtosis, Moments4, define_moments! orders 6 and 10, Min, Max, Quantile (p = 0.5, 0.9, 0.01), WeightedMean, WeightedMeanWithError, Covariance and define_histogram! types (LEN 3, 10, 100, finite edges): two lossless formats — JSON text with float_roundtrip and the serde_json::Value tree —: s = serde_json::to_string(e); precondition: parsing s into serde_json::Value and printing it gives s again (lossless on this document — otherwise discarded and counted); e' = from_str(s); to_string(e') == s; every accessor of e' bit-equal to e's; serialising leaves e unchanged; then the remaining operations are applied to both and all accessors compared bit-for-bit after EACH step. Short streams take every checkpoint position. Non-trivial = 0 < c < len and the tail contains at least one add; distinct = hash of (type, stream, checkpoint)");
+    cx.set_rule("cases = (type, stream of adds and merges over the C01 domain, checkpoint position c in 0..=len) for Mean, Variance, Skewness, Kurtosis, Moments4, define_moments! orders 6 and 10, Min, Max, Quantile (p = 0.5, 0.9, 0.01), WeightedMean, WeightedMeanWithError, Covariance and define_histogram! types (LEN 3, 10, 100, finite edges): two lossless formats — JSON text with float_roundtrip and the serde_json::Value tree —: s = serde_json::to_string(e); precondition: parsing s into serde_json::Value and printing it gives s again (lossless on this document — otherwise discarded and counted); e' = from_str(s); to_string(e') == s; every accessor of e' bit-equal to e's; serialising leaves e unchanged; then the remaining operations are applied to both and all accessors compared bit-for-bit after EACH step. Short streams take every checkpoint position; fixed long histories put the checkpoint after 70 000 to 400 000 (thorough 3 000 000) observations. Non-trivial = 0 < c < len and the tail contains at least one add; distinct = hash of (type, stream, checkpoint)");
     cx.assume("states with non-finite fields (empty Min/Max) cannot be carried by JSON and are outside the property: discarded and counted");
     cx.label("every-checkpoint");
     for ty in SERDE_TYPES {
@@ -254,6 +265,19 @@ pub fn run(cx: &Ctx) {
         };
         cx.run_pt(&RoundTrip, cx.by(200, 3000), cx.workers.min(8), strat, "streams of 10..60 (thorough 400) operations");
     }
+    // the checkpoint late in a long history: state that drifts with the number of observations (accumulated
+    // desired positions of P-square, large counts) must still round-trip
+    cx.label("late-checkpoint");
+    let mut late = Vec::new();
+    for ty in SERDE_TYPES {
+        for (k, &n) in [70_000u32, 150_000, if cx.thorough() { 3_000_000 } else { 400_000 }].iter().enumerate() {
+            let ops = vec![SOp::Bulk { n, seed: 7 + k as u32 }, SOp::Add { x: 0.25, y: 1.0 }, SOp::Bulk { n: 50, seed: 99 }, SOp::Merge { vals: vec![(1.5, 2.0), (-2.0, 0.5)] }, SOp::Add { x: -1.0, y: 1.0 }];
+            for cp in [1usize, 3] {
+                late.push(S18 { ty: ty.to_string(), ops: ops.clone(), checkpoint: cp });
+            }
+        }
+    }
+    cx.run_list(&RoundTrip, late, "every type: 70 000 / 150 000 / 400 000 (thorough 3 000 000) observations, then the round trip, then adds and a merge");
 }
 
 pub fn replay(check: &str, case: &serde_json::Value) -> Option<Result<(), String>> {
